@@ -8,7 +8,7 @@ import gen
 import refsym
 import replaylib as rl
 
-IMPORTS = ('From SV Require Import Base.Sym Base.Tensor Gen.PhasePerm Model.SymInst Model.Sectors Model.Array Model.Arith Model.Fermi.\n')
+IMPORTS = ('From SV Require Import Base.Sym Base.Tensor Gen.PhasePerm Model.SymInst Model.Sectors Model.Array Model.Arith Model.Fermi Model.Ctor Model.FermiReduce.\n')
 SYMS = ['Z2', 'U1', 'Z2Z2', 'U1U1']
 
 
@@ -43,6 +43,85 @@ def value_eq(x, y, tol=0.0):
         if a.shape != b.shape or not (np.array_equal(a, b) if tol == 0 else np.allclose(a, b, rtol=tol, atol=tol)):
             return False
     return True
+
+
+# ---- reductions / scalar conversions that read blocks (Model/FermiReduce.v) ----
+REDUCTIONS = ('item', 'sum', 'max', 'min', 'norm2')
+
+
+def reduction_impl(x, name):
+    """what the implementation returns (complex / float), or raises"""
+    if name == 'norm2':
+        return float(x.norm()) ** 2
+    return complex(np.asarray(getattr(x, name)()).item())
+
+
+def reduction_reference(x):
+    """the same quantities computed here from the stored blocks and the pending-sign table (every
+    sign applied exactly once); a missing key = nothing to compare (the code raises: no stored block,
+    item of anything but one block of one element)"""
+    parts = [np.asarray(b).reshape(-1) * (-1 if x.phases.get(s, 1) == -1 else 1) for s, b in x.blocks.items()]
+    ref = {}
+    if parts and all(p.size for p in parts):
+        allv = [complex(v) for p in parts for v in p]
+        ref['sum'] = sum(allv)
+        ref['max'] = max(allv, key=lambda v: (v.real, v.imag))     # numpy's order on complex numbers
+        ref['min'] = min(allv, key=lambda v: (v.real, v.imag))
+        ref['norm2'] = float(sum(abs(v) ** 2 for v in allv))
+    if len(parts) == 1 and parts[0].size == 1:
+        ref['item'] = complex(parts[0][0])
+    return ref
+
+
+def gvalue(v, ring):
+    c = complex(v)
+    if ring == 'GRing':
+        return '(%s, %s)' % (gen.gnum(gen.exact_int(c.real)), gen.gnum(gen.exact_int(c.imag)))
+    if c.imag != 0:
+        raise ValueError('complex value for ZRing')
+    return gen.gnum(gen.exact_int(c.real))
+
+
+def reduction_model(name, A, ring, gx):
+    leb = 'g_leb' if ring == 'GRing' else 'z_leb'
+    return {'item': 'f_item %s %s' % (A, gx), 'sum': 'f_sum %s %s' % (A, gx), 'max': 'f_max %s %s %s' % (A, leb, gx),
+            'min': 'f_min %s %s %s' % (A, leb, gx), 'norm2': 'f_norm2 %s %s' % (A, gx)}[name]
+
+
+def reduction_cases(x, sym, ring):
+    """[(name, boolean Gallina term, reference failure or None)]: the model on the serialised LAZY array
+    against what the implementation returned / whether it raised (exact integer data)"""
+    A = '%s %s' % (sym, ring)
+    gx = gen.gfarray(x, sym, ring)
+    ref = reduction_reference(x)
+    out = []
+    for name in REDUCTIONS:
+        m = reduction_model(name, A, ring, gx)
+        try:
+            v = reduction_impl(x, name)
+        except Exception:
+            out.append((name, 'match %s with None => true | Some _ => false end' % m, None))
+            continue
+        vv = complex(round(v), 0) if name == 'norm2' else v
+        bad = None
+        if name in ref and not (abs(ref[name] - v) <= 1e-6 * max(1.0, abs(ref[name]))):
+            bad = {'expected': str(ref[name]), 'got': str(v)}
+        out.append((name, 'match %s with Some v => reqb %s v %s | None => false end' % (m, ring, gvalue(vv, ring)), bad))
+    if ring == 'ZRing':
+        for name, mexpr, f in (('abs', 'f_abs %s %s' % (sym, gx), lambda a: a.abs()),
+                               ('clip', 'f_clip %s (-1) 1 %s' % (sym, gx), lambda a: a.clip(-1, 1))):
+            try:
+                y = f(x)
+            except Exception:
+                continue
+            bad = None
+            if y.phases or any(not np.array_equal(np.asarray(y.blocks[s]),
+                                                  np.abs(np.asarray(b)) if name == 'abs' else
+                                                  np.clip(np.asarray(b) * (-1 if x.phases.get(s, 1) == -1 else 1), -1, 1))
+                               for s, b in x.blocks.items()):
+                bad = {'expected': 'the function applied to the blocks with the pending signs multiplied in, empty sign table', 'got': describe(y)}
+            out.append((name, 'farray_eqb_strict %s (%s) %s' % (A, mexpr, gen.gfarray(y, sym, ring)), bad))
+    return out
 
 
 def operations(rng, sr, x, other, vec):
@@ -160,6 +239,7 @@ def run(ctx):
     n_cases = 700 if ctx.thorough else 130
     exprs, meta, found = [], [], []
     opstat, raised = {}, {}
+    n_reduction_cases, found_values = {}, []     # value failures are reported after the lazy-vs-synchronised ones
     for k in range(n_cases):
         sym = SYMS[k % len(SYMS)]
         cplx = rng.random() < 0.25
@@ -192,6 +272,15 @@ def run(ctx):
                           'replay': rl.record('sync', {'x': x_full}, {'symmetry': sym})})
         exprs.append('farray_eqb_strict %s (f_phase_sync %s %s) %s' % (A, A, gen.gfarray(x, sym, ring), gen.gfarray(xs, sym, ring)))
         meta.append(('phase_sync', sym, k))
+        # reductions, scalar conversions, abs / clip: model on the lazy array vs the implementation's values,
+        # and the implementation's values vs the blocks with the pending signs applied once (computed here)
+        for nm, expr, bad in reduction_cases(x, sym, ring):
+            exprs.append(expr); meta.append((nm, sym, k)); ctx.count()
+            n_reduction_cases[nm] = n_reduction_cases.get(nm, 0) + 1
+            if bad is not None:
+                found_values.append({'op': nm + ' (value)', 'symmetry': sym, 'x': describe(x),
+                              'error': '%s of the lazy array is not %s of its value (pending signs applied exactly once)' % (nm, nm), **bad,
+                              'replay': rl.record('reduction', {'x': x_full}, {'symmetry': sym, 'op': nm})})
         vec = None
         if nd:
             ax = rng.randrange(nd)
@@ -349,6 +438,7 @@ def run(ctx):
                               'replay': rl.record('eigh', {'x': hl_full}, {'symmetry': sym})})
         except Exception:
             raised['eigh'] = raised.get('eigh', 0) + 1
+    found += found_values
     bad_idx = common.run_cases(ctx, 'lazy', IMPORTS, '', exprs, shard=60)
     tie_broken = []
     if bad_idx is None:
@@ -375,7 +465,8 @@ def run(ctx):
                       {'broken': ctx.broken, 'replay': rl.record('proof_phase')}, found_input=False)
     ctx.extra['operations_compared'] = opstat
     ctx.extra['operations_that_raised_on_both'] = raised
-    ctx.extra['tie'] = {'model_cases': len(exprs)}
+    ctx.extra['tie'] = {'model_cases': len(exprs), 'reduction_model_cases': sum(n_reduction_cases.values()),
+                        'reduction_model_cases_by_op': n_reduction_cases}
     ctx.coverage['rule'] = ('random fermionic arrays (rank 1-3, four symmetries, even/odd, sparse, real + Gaussian-integer) with pending-sign tables '
                             'produced by 1-4 random phase operations; every public operation applied to the lazy array and to its synchronised '
                             'copy, results compared at value level (signs applied); non-trivial = non-empty pending-sign table; distinct by '
@@ -538,7 +629,19 @@ def _rp_eigh(sr, ins, pr, r):
     return []
 
 
-ORACLES = {'sync': _rp_sync, 'operation': _rp_operation, 'inplace_outputs': _rp_inplace_outputs, 'linalg_op': _rp_linalg_op,
+def _rp_reduction(sr, ins, pr, r):
+    """the recorded reduction / elementwise function of the lazy array against the blocks with the
+    pending signs applied once"""
+    x = ins['x']
+    sym = pr['symmetry']
+    fails = []
+    for nm, expr, bad in reduction_cases(x, sym, gen.ring_of(x)):
+        if nm == pr['op'] and bad is not None:
+            fails.append({'what': '%s of the lazy array vs %s of its value (pending signs applied exactly once)' % (nm, nm), **bad})
+    return fails
+
+
+ORACLES = {'reduction': _rp_reduction, 'sync': _rp_sync, 'operation': _rp_operation, 'inplace_outputs': _rp_inplace_outputs, 'linalg_op': _rp_linalg_op,
            'stale': _rp_stale, 'eigh': _rp_eigh}
 
 
